@@ -17,6 +17,8 @@ RULE = ('contexts: EXH(k) (k=9 quick / 10 thorough) + FAM + WIDE (31..130 wide) 
         'duplicated/shuffled argument lists and an unknown label; observation = intension/extension in label and raw '
         'form, Context.bools/objects/properties; non-trivial = context having a query whose result is neither empty '
         'nor full, or wider than 64; distinct by (nG, nM, rows)')
+from .latfam import INDIRECT_RULE  # noqa: E402
+RULE = RULE + INDIRECT_RULE
 EXHAUSTIVE = {'quick': False, 'thorough': False}
 
 
